@@ -6,7 +6,9 @@ import (
 	"fmt"
 	"go/ast"
 	"go/types"
+	"reflect"
 	"sort"
+	"strconv"
 	"strings"
 )
 
@@ -28,6 +30,10 @@ func c05(c *Ctx) {
 	c05R7(c)
 	// a record is read and rewritten by one request per pod at a time (shared rule)
 	c04R1(c)
+	// a DEL that matches the record removes it: no binding outlives its acknowledged teardown
+	c04R6(c)
+	c05R8(c)
+	c05R9(c)
 }
 
 // R1: ADD is acknowledged only after the record is on disk.
@@ -693,4 +699,118 @@ func c05R7(c *Ctx) {
 		c.Check(restored[o.Name()], "C05.R7", key, p.Pos(st.Node), st.Fn.Key(), "Type ∈ "+strings.Join(keysOf(restored), ", "), o.Name()+" is not restored by Local.load")
 	}
 	c.Floor("C05.R7", "writes of ResourceItem.Type", 1, n)
+}
+
+// R8: what start-up forgets. filterENINotFound drops a stored resource from the
+// records handed to the pools only when the interface it names is not attached
+// any more: each removal is under "not found among the attached interfaces"
+// (the map lookup by id failed, or the scan by MAC found nothing). A record
+// dropped for any other reason leaves an address that a live pod uses unowned
+// in the rebuilt pool.
+func c05R8(c *Ctx) {
+	p := c.P
+	c.Rule("C05.R8", "filterENINotFound removes a stored resource only when its interface is not among the attached ones (lookup by id failed / scan by MAC found nothing); nothing else about the interface (its kind, its trunk flag) makes start-up forget a binding")
+	fn := p.Func(daemonPkg, "filterENINotFound")
+	resF := p.Field(modPath+"/types/daemon", "PodResources", "Resources")
+	if fn == nil || resF == nil {
+		c.Unres("C05.R8", "filterENINotFound / PodResources.Resources", "not found")
+		return
+	}
+	info := fn.Info()
+	var attached types.Object
+	for _, f := range fn.Decl.Type.Params.List {
+		for _, nm := range f.Names {
+			if _, isMap := info.Defs[nm].Type().Underlying().(*types.Map); isMap {
+				attached = info.Defs[nm]
+			}
+		}
+	}
+	if attached == nil {
+		c.Undec("C05.R8", "filterENINotFound(records, attached)", p.Pos(fn.Decl), fn.Key(), "a map parameter of attached interfaces", "signature changed")
+		return
+	}
+	var alts []string
+	ast.Inspect(fn.Decl.Body, func(k ast.Node) bool {
+		switch t := k.(type) {
+		case *ast.AssignStmt:
+			if len(t.Lhs) == 2 && len(t.Rhs) == 1 {
+				if ix, ok := ast.Unparen(t.Rhs[0]).(*ast.IndexExpr); ok && identObj(info, ix.X) == attached {
+					if nm := exprString(t.Lhs[1]); nm != "_" {
+						alts = append(alts, "!"+nm)
+					}
+				}
+			}
+		case *ast.RangeStmt:
+			if identObj(info, t.X) == attached {
+				ast.Inspect(t.Body, func(j ast.Node) bool {
+					if as, ok := j.(*ast.AssignStmt); ok && len(as.Lhs) == 1 && len(as.Rhs) == 1 {
+						if tv := info.Types[as.Rhs[0]]; tv.Value != nil && tv.Value.String() == "true" {
+							alts = append(alts, "!"+exprString(as.Lhs[0]))
+						}
+					}
+					return true
+				})
+			}
+		}
+		return true
+	})
+	n := 0
+	for _, s := range p.StoresTo([]*FuncInfo{fn}, resF) {
+		if s.InLit {
+			continue
+		}
+		n++
+		c.RequireAnyOf("C05.R8", "filterENINotFound: a resource is dropped only when its interface is not attached", fn, s.Node, alts)
+	}
+	c.Floor("C05.R8", "removals in filterENINotFound", 1, n)
+	c.Floor("C05.R8", "not-found tests", 1, len(alts))
+}
+
+// R9: the stored record keeps its wire names. Records written by one version of
+// the daemon are read by the next one (upgrade, restart): the JSON key of every
+// field of the persisted types is what it is today. A renamed key makes the
+// old records decode with that field empty — for ContainerID that silently
+// disables the stale-request guard of C04.
+func c05R9(c *Ctx) {
+	p := c.P
+	c.Rule("C05.R9", "wire names of the persisted pod record are stable: every field of types/daemon.PodResources and ResourceItem that exists today keeps its JSON key (new fields may be added; a renamed or dropped key makes records of the previous version decode incompletely)")
+	frozen := map[string]map[string]string{
+		"PodResources": {"Resources": "Resources", "PodInfo": "PodInfo", "NetNs": "NetNs", "ContainerID": "ContainerID", "NetConf": "NetConf"},
+		"ResourceItem": {"Type": "type", "ID": "id", "ExtraEipInfo": "extra_eip_info", "ENIID": "eni_id", "ENIMAC": "eni_mac", "IPv4": "ipv4", "IPv6": "ipv6"},
+	}
+	n := 0
+	for _, tn := range []string{"PodResources", "ResourceItem"} {
+		o := p.LookupObj("types/daemon", tn)
+		if o == nil {
+			c.Unres("C05.R9", "types/daemon."+tn, "not found")
+			continue
+		}
+		st, ok := o.Type().Underlying().(*types.Struct)
+		if !ok {
+			c.Bad("C05.R9", tn+" is a struct", "", "types/daemon", "struct", "not a struct")
+			continue
+		}
+		have := map[string]string{}
+		for i := 0; i < st.NumFields(); i++ {
+			f := st.Field(i)
+			key := f.Name()
+			if tag := reflect.StructTag(st.Tag(i)).Get("json"); tag != "" {
+				if nm := strings.Split(tag, ",")[0]; nm != "" {
+					key = nm
+				}
+			}
+			have[f.Name()] = key
+		}
+		var fields []string
+		for f := range frozen[tn] {
+			fields = append(fields, f)
+		}
+		sort.Strings(fields)
+		for _, f := range fields {
+			n++
+			got, present := have[f]
+			c.Check(present && got == frozen[tn][f], "C05.R9", tn+"."+f+" is stored under "+strconv.Quote(frozen[tn][f]), p.PosOf(o.Pos()), "types/daemon."+tn, "JSON key "+strconv.Quote(frozen[tn][f]), fmt.Sprintf("present=%v key=%q", present, got))
+		}
+	}
+	c.Floor("C05.R9", "persisted fields", 12, n)
 }
